@@ -367,6 +367,10 @@ func (tm *TreeMarshal) MakeTreeFromList(parent *TreeNode, ro *Roster) (*TreeNode
 	if idx < 0 {
 		return nil, xerrors.New("didn't find node in roster")
 	}
+	if ent.Public == nil {
+		// the key is optional on the wire and is used for the aggregate keys
+		return nil, xerrors.New("roster member without public key")
+	}
 	tn := &TreeNode{
 		Parent:         parent,
 		ID:             tm.TreeNodeID,
